@@ -291,7 +291,7 @@ func checkC04(c *Ctx) {
 						waits = false
 					}
 				})
-				c.check(waits, "R6", "a demotion that lost against a concurrent one waits for its notification in "+shortFn(f), l.If,
+				c.check(waits, "R6", "a demotion that lost against a concurrent one waits for its notification", l.If,
 					"on the path where the clearing unit reports that another activation ended the term, a wait precedes the return: %v. Without it a ValidateTokenOrDemote that began while the instance led returns false while the OnDemote of the concurrent demotion has not been invoked yet (claim cleared, callback pending).", waits)
 			}
 		})
